@@ -25,7 +25,7 @@ pub struct Case {
     /// where the padding goes (monotone position in the op list)
     pub pad_pos: u16,
     pub label: Vec<u8>,
-    /// 0 minimal, 1 minimal+odd, 2 double, 3 minimal+7
+    /// 0 minimal, 1 minimal+odd, 2 double, 3 minimal+7, 4 far larger (4096+5)
     pub cap_kind: u8,
     pub route: u8,
     pub route2: u8,
@@ -58,7 +58,7 @@ fn case_strategy(t: Tier) -> BoxedStrategy<Case> {
         proptest::option::weighted(0.6, (3u32..=max_k, -8i8..=8)),
         any::<u16>(),
         proptest::collection::vec(any::<u8>(), 0..40),
-        0u8..4,
+        0u8..5,
         0u8..3,
         0u8..3,
         any::<bool>(),
@@ -191,11 +191,12 @@ fn check(ctx: &Ctx, c: &Case) -> PResult {
     );
 
     let min_cap = sys::min_capacity(n);
-    let cap = match c.cap_kind % 4 {
+    let cap = match c.cap_kind % 5 {
         0 => min_cap,
         1 => min_cap + 1 + (c.seed % 3) as usize * 2,
         2 => 2 * min_cap,
-        _ => min_cap + 7,
+        3 => min_cap + 7,
+        _ => (4096 + 5).max(min_cap),
     };
     let pp = sys::pp(cap);
     let r1 = route_of(c.route);
@@ -319,7 +320,7 @@ fn check(ctx: &Ctx, c: &Case) -> PResult {
         ctx.label(&format!("family {f}"));
     }
     ctx.label(&format!("route {:?}/{:?}", r1, r2));
-    ctx.label(&format!("capacity kind {}", c.cap_kind % 4));
+    ctx.label(&format!("capacity kind {}", c.cap_kind % 5));
     if c.prover_bytes {
         ctx.label("prover from bytes");
     }
@@ -396,7 +397,7 @@ fn sweep(ctx: &Ctx) {
                 target: Some((k, d)),
                 pad_pos: 52000, // before the last op
                 label: format!("sweep-{k}").into_bytes(),
-                cap_kind: (k as u8 + d as u8) % 4,
+                cap_kind: (k as u8 + d as u8) % 5,
                 route: (k as u8 + d as u8) % 3,
                 route2: (d as u8) % 3,
                 prover_bytes: d % 2 == 0,
@@ -445,7 +446,7 @@ pub fn sweeps(ctx: &Ctx) {
 }
 
 pub fn describe(ctx: &Ctx) {
-    ctx.rule("cases: generated circuit programs (every public component + raw arithmetic rows, satisfying by construction through an independent value model), constraint targets 2^k+delta (k<=9 quick / 12 thorough, delta in -8..=8) by padding at a generated position, labels of 0..40 arbitrary bytes, capacities {minimal, minimal+odd, minimal+7, double}, prover route x verifier route in {instance, Default, compressed}^2, optional byte round trip of prover/verifier, V3 and V2; plus the exhaustive (k,delta) sweep with a PI on the first and last row; non-trivial = more than the 4 fixed rows; distinct by (layout digest, capacity, routes, byte-routes)");
+    ctx.rule("cases: generated circuit programs (every public component + raw arithmetic rows, satisfying by construction through an independent value model), constraint targets 2^k+delta (k<=9 quick / 12 thorough, delta in -8..=8) by padding at a generated position, labels of 0..40 arbitrary bytes, capacities {minimal, minimal+odd, minimal+7, double, far larger (4101)}, prover route x verifier route in {instance, Default, compressed}^2, optional byte round trip of prover/verifier, V3 and V2; plus the exhaustive (k,delta) sweep with a PI on the first and last row; non-trivial = more than the 4 fixed rows; distinct by (layout digest, capacity, routes, byte-routes)");
     ctx.assume("witness values are those of the harness's value model (checked equal to what the composer computed)");
     ctx.assume("degenerate (zero) blinders are not generated here (ChaCha-seeded RNG)");
     let _ = fe_any;
